@@ -24,6 +24,10 @@ mod c14;
 mod c08;
 mod c18;
 mod c17;
+mod c05;
+
+#[global_allocator]
+static GLOBAL: c05::Counting = c05::Counting;
 
 pub use util::*;
 
@@ -56,6 +60,7 @@ fn props() -> Vec<Prop> {
         Prop { id: "C08", run: c08::run, gen: c08::gen },
         Prop { id: "C18", run: c18::run, gen: c18::gen },
         Prop { id: "C17", run: c17::run, gen: c17::gen },
+        Prop { id: "C05", run: c05::run, gen: c05::gen },
     ]
 }
 
